@@ -16,7 +16,7 @@ func init() {
 		run: runC12,
 		explanation: "Structural clauses of shell-safe expansion: (R1) the quoting lemma — the replacer tables read from NewExecutor and the wrapper shape of QuoteEntry / escapeSingleQuote are, in a small model of POSIX (and fish) single-quote lexing, exact inverses of shell evaluation (case analysis over the constant tables plus exhaustive short strings over the metacharacter alphabet); the table is chosen by the base name of the very shell that will run the command; " +
 			"(R2) in replacePlaceholder every value derived from an item, the query or the prompt reaches the expanded template only through QuoteEntry (or as a decimal ordinal / temp-file path), except on edges guarded by the r/f flags; (R3) tmux/proxy re-launch: every argument reaches the command string only through escapeSingleQuote, every exported environment VALUE only through escapeSingleQuote (bash function bodies exempt), names only after the identifier check.",
-		notDecided: "the placeholder regular expression and flag parsing, escaping of \\{..}, ordering of {+}, behaviour of non-POSIX shells other than fish, NUL bytes",
+		notDecided:  "the placeholder regular expression and flag parsing, escaping of \\{..}, ordering of {+}, behaviour of non-POSIX shells other than fish, NUL bytes",
 		assumptions: []string{"POSIX single-quote lexing: every byte is literal until the next single quote; outside quotes \\' is a literal quote. fish: inside single quotes only \\\\ and \\' are escapes."},
 	})
 }
